@@ -447,7 +447,7 @@ def laws(rng, tier, ctx):
                         '(cmp cmp %s %s)' % (enc(U[i]), enc(U[j])), '(cmp cmp %s %s)' % (enc(U[j]), enc(U[k])),
                         '(cmp cmp %s %s)' % (enc(U[i]), enc(U[k]))]), 'x<=y, y<=z but cmp(x,z)=1')
     # numerically equal numbers of any spelling (python / numpy ints and floats) compare equal; NaN above every finite number
-    nums = [x for x in U + [np.int64(2), np.float64(2.0), np.float32(2.5), 2 ** 53, float(2 ** 53), 2 ** 53 + 1, np.float64(-0.25), np.int32(-1)]
+    nums = [x for x in U + [np.int64(2), np.float64(2.0), np.float32(2.5), np.float32(1.0), np.float16(0.5), 2 ** 53, float(2 ** 53), 2 ** 53 + 1, np.float64(-0.25), np.int32(-1)]
             if isinstance(x, (int, float, np.integer, np.floating)) and not isinstance(x, (bool, np.bool_))]
     for x in nums:
         for y in nums:
@@ -461,7 +461,9 @@ def laws(rng, tier, ctx):
                 yield Finding('violation', dict(tag='law-numeq', lines=['(cmp cmp %s %s)' % (enc(x), enc(y))]),
                               'numerically equal numbers %r (%s) and %r (%s) compare %s' % (x, type(x).__name__, y, type(y).__name__, c))
         if float(x) == float(x) and abs(float(x)) != float('inf'):
-            for nanv in (float('nan'), np.nan, np.float64('nan')):
+            # NaN in every float spelling: np.float32 / np.float16 do not subclass python's float (seeded C07-u3: cmp skipping
+            # as_primitive for two operands of one type left cmp(np.float32('nan'), np.float32(1.0)) == 0)
+            for nanv in (float('nan'), np.nan, np.float64('nan'), np.float32('nan'), np.float16('nan')):
                 count += 1
                 if pyg_base.cmp(x, nanv) != -1 or pyg_base.cmp(nanv, x) != 1:
                     yield Finding('violation', dict(tag='law-nantop', lines=['(cmp cmp %s F:nan)' % enc(x)]),
